@@ -269,13 +269,15 @@ class FakeSnowflakeCursor:
 
         affected_count = None
 
-        if set_database := transformed.args.get("set_database"):
-            self._conn.database = set_database
-            self._conn.database_set = True
+        if (set_database := transformed.args.get("set_database")) or transformed.args.get("set_schema"):
+            # NB: USE SCHEMA <database>.<schema> sets both
+            if set_database:
+                self._conn.database = set_database
+                self._conn.database_set = True
 
-        elif set_schema := transformed.args.get("set_schema"):
-            self._conn.schema = set_schema
-            self._conn.schema_set = True
+            if set_schema := transformed.args.get("set_schema"):
+                self._conn.schema = set_schema
+                self._conn.schema_set = True
 
         elif create_db_name := transformed.args.get("create_db_name"):
             # we created a new database, so create the info schema extensions
